@@ -182,12 +182,13 @@ func (r *request) buildHTTP(mediaType, basePath string, producers map[string]run
 						// Need to read the data so that we can detect the content type
 						const contentTypeBufferSize = 512
 						buf := make([]byte, contentTypeBufferSize)
-						size, err := fi.Read(buf)
-						if err != nil && err != io.EOF {
+						// fill the buffer as far as the content goes: a single Read may legitimately return less
+						size, err := io.ReadFull(fi, buf)
+						if err != nil && err != io.EOF && err != io.ErrUnexpectedEOF {
 							logClose(err, pw)
 							return
 						}
-						fileContentType = http.DetectContentType(buf)
+						fileContentType = http.DetectContentType(buf[:size])
 						fi = runtime.NamedReader(fi.Name(), io.MultiReader(bytes.NewReader(buf[:size]), fi))
 					}
 
